@@ -22,8 +22,8 @@ META = {
             "drained; PipeTimeout only when empty and not before its deadline); no reader stays blocked with "
             "data buffered or the pipe closed; the attached Event agrees with (data or closed) at the end. Plus [poll "
             "then block] a non-blocking poll that timed out followed by a blocking read (same thread or another) "
-            "against a producer / closer; plus [opcode] reader || producer programs with read() preemptible between "
-            "any two bytecode instructions (preemption bound 1 quick / 2 thorough), same oracle.",
+            "against a producer / closer; plus [field access] reader || producer programs with a scheduling point before every access to "
+            "the shared fields _buffer / _closed (finer than a source line; preemption bound 1 quick / 2 thorough), same oracle.",
     "note": "atomicity = source line of buffered_pipe.py; virtual clock; PipeTimeout racing a feed is judged by "
             "linearizability (legal if the buffer was empty at some point of the call at/after the deadline)",
     "design_ref": "4/C26",
@@ -43,11 +43,38 @@ def payload(tid, k, tag):
     return bytes([0x41 + (tid * 4 + k * 2 + i) % 26 for i in range(base)])
 
 
+def _probed(name):
+    slot = "_probed" + name
+
+    def pt():
+        sch = S.current()
+        if sch is not None and sch.line_points:
+            sch.point("field:" + name)
+
+    def get(self):
+        pt()
+        return self.__dict__[slot]
+
+    def put(self, v):
+        pt()
+        self.__dict__[slot] = v
+    return property(get, put)
+
+
+class ProbedPipe(BufferedPipe):
+    """The real BufferedPipe with a scheduling point before every access to its two shared fields (finer than a
+    source line, and - unlike bytecode-level tracing, whose event count depends on the interpreter's
+    specialisation state - deterministic): a check such as `len(self._buffer) == 0 and self._closed` can be
+    interrupted between its two reads."""
+    _buffer = _probed("_buffer")
+    _closed = _probed("_closed")
+
+
 def make_body(scn):
     init, with_event, progs = scn[:3]
 
     def body(s):
-        pipe = BufferedPipe()
+        pipe = ProbedPipe() if len(scn) > 3 else BufferedPipe()
         ev = None
         if with_event:
             ev = vthreading.Event()
@@ -251,8 +278,8 @@ BLOCKING = [("read", 1, None), ("read", 10, 5.0)]
 def more_scenarios(tier):
     """[poll then block] state left behind by an earlier non-blocking poll (PipeTimeout on an empty pipe) must not
     change what a later blocking read does: the poll and the blocking read in one thread or in two, a producer /
-    closer in another.  [opcode] the same small programs with read() preemptible between any two bytecode
-    instructions (scn[3] == "op"): checks that are unlocked or span one source line."""
+    closer in another.  [field access] the same small programs on a ProbedPipe (scn[3] == "fld"): a scheduling point before every
+    access to _buffer / _closed, so that checks which are unlocked or span one source line can be interrupted."""
     out = []
     for a in POLLS:
         for b in BLOCKING:
@@ -264,10 +291,10 @@ def more_scenarios(tier):
     for init in ((0,) if tier == "quick" else (0, 1)):
         for a in rds:
             for pr in prods:
-                out.append((init, False, ((a,), pr), "op"))
+                out.append((init, False, ((a,), pr), "fld"))
     if tier != "quick":
         for a, b in itertools.combinations_with_replacement(rds, 2):
-            out.append((0, False, ((a,), (b,), (FEED_A, ("close",))), "op"))
+            out.append((0, False, ((a,), (b,), (FEED_A, ("close",))), "fld"))
     return out
 
 
@@ -288,8 +315,6 @@ def run_scn(item, acc):
     body = make_body(scn)
     bound = bound_for(tier, scn)
     kw = {"trace_files": TRACE, "timer_dev": True}
-    if len(scn) > 3:
-        kw["opcode_funcs"] = {"read"}
     outcomes = set()
 
     def on_exec(ex):
@@ -323,7 +348,7 @@ def run_scn(item, acc):
     res = explore.explore(body, bound, "preempt", cap=CAP, on_exec=on_exec, sched_kw=kw)
     acc.count("schedules", res.executions)
     if len(scn) > 3:
-        acc.count("opcode_granular_schedules", res.executions)
+        acc.count("field_access_granular_schedules", res.executions)
     acc.count("scenarios")
     acc.cmax("max_bound", bound)
     acc.count("distinct_observable_histories", len(outcomes))
@@ -356,8 +381,6 @@ def replay(rec):
     scn = r["scn"]
     scn = (scn[0], scn[1], tuple(tuple(tuple(op) for op in p) for p in scn[2])) + tuple(scn[3:])
     kw = {"trace_files": TRACE, "timer_dev": True, "record_trace": True}
-    if len(scn) > 3:
-        kw["opcode_funcs"] = {"read"}
     ex = explore.replay(make_body(scn), r["choices"], "preempt", kw)
     for t in ex.trace[-80:]:
         print(t)
